@@ -269,6 +269,44 @@ R.contract(
     bounded_note="recorders with up to 2 interactions",
 )
 
+
+# ------------------------------------------------------------------------------------------------- Case._override: which parameter values the user changed after generation
+OV = "schemathesis.generation.overrides:"
+TRF = "schemathesis.core.transforms:"
+_Comp = lambda: KeyedDict(Str, Opq("ParamValue"), sizes=(0, 1, 2))
+CHANGED = "[k for k in right if not any(k == k2 and same_value(left[k2], right[k]) for k2 in left)]"
+R.spec_funcs["same_value"] = lambda it, a, b: __import__("pyvc.ops", fromlist=["eq"]).eq(a, b)
+R.contract(
+    TRF + "diff",
+    prop="C18",
+    args={"left": _Comp(), "right": _Comp()},
+    raises=[],
+    ensures={
+        "exactly_the_new_or_changed_entries_with_their_current_values": "length(result) == length(" + CHANGED + ") and all(k in result for k in " + CHANGED + ") and all(result[k] is right[k] for k in result)",
+        "inputs_untouched": "length(left) == old(length(left)) and length(right) == old(length(right))",
+    },
+    bounded_note="components with up to 2 parameters",
+)
+R.contracts[TRF + "diff"].inline = True
+NATIVE = dict(globals().get("NATIVE", {}))
+NATIVE.setdefault("helpers", {})["same_value"] = lambda a, b: a == b
+R.contract(
+    OV + "get_component_diff",
+    prop="C18",
+    args={"stored": Obj(OV + "StoredValue", value=OneOf(NoneT, _Comp()), is_generated=Bool), "current": OneOf(NoneT, _Comp())},
+    raises=[],
+    ensures={
+        # "Case._override diff against generated components": for a generated component only what differs from the generated values counts as the user's override;
+        # a component the user supplied entirely is an override as a whole; nothing to compare => no override
+        "nothing_to_compare_means_no_override": "implies(current is None or length(current) == 0 or stored.value is None or length(stored.value) == 0, result == {})",
+        "generated_component_only_the_changed_values": "implies(current is not None and length(current) > 0 and stored.value is not None and length(stored.value) > 0 and stored.is_generated, "
+                                                       "length(result) == length([k for k in current if not any(k == k2 and same_value(stored.value[k2], current[k]) for k2 in stored.value)]) and "
+                                                       "all(k in result for k in current if not any(k == k2 and same_value(stored.value[k2], current[k]) for k2 in stored.value)) and all(result[k] is current[k] for k in result))",
+        "user_supplied_component_counts_entirely": "implies(current is not None and length(current) > 0 and stored.value is not None and length(stored.value) > 0 and not stored.is_generated, result is current)",
+    },
+    bounded_note="components with up to 2 parameters",
+)
+
 LEVEL_TEXT = ("Deductive for the two checks' trigger conditions (loop invariants, histories of any length, the DELETE's own response as the property demands); "
               "the path-prefix relation and the tree walk of the recorder are covered by exhaustive bounded stand-ins, hence level other.")
 LEVEL_NOTE = "Trusted: CheckContext.find_* (recorder walk checked by stand-in), message formatting helpers, pyvc semantics (E9)."
